@@ -240,7 +240,19 @@ func TestWindowFunction(t *testing.T) {
 			}
 		}
 		_, got := act.VerifCheckRestartIntensity(restarts, period, intensity)
+		// the function reads the clock itself: every age is older by the time that has passed since
+		// `now` was taken (normally well below a millisecond, much more on a busy machine)
+		elapsed := time.Now().UnixMilli() - now + 1
+		withinLate := 0
+		for _, a := range ages {
+			if a+elapsed <= pm {
+				withinLate++
+			}
+		}
 		want := within+1 > intensity
+		if (withinLate+1 > intensity) != want {
+			t.Skipf("inconclusive: %d ms passed between building the ages and the call, an age crossed the edge of the window", elapsed)
+		}
 		if got != want {
 			t.Fatalf("ages=%v period=%ds intensity=%d: exceeded=%v, the sliding-window definition says %v (%d restarts within the window + this one)", ages, period, intensity, got, want, within)
 		}
